@@ -289,3 +289,46 @@ func init() {
 			return false, ""
 		})
 }
+
+func init() {
+	registerKF("f24-double-delete-double-trigger", "C19",
+		"deleting the same row twice inside one transaction (DeleteAt returns true both times) reports the deletion to triggers twice",
+		func() (bool, string) {
+			c, _ := kfCollection(ColSpec{Name: "v", Kind: KInt})
+			defer c.Close()
+			off, _ := c.Insert(func(r column.Row) error { r.SetInt("v", 1); return nil })
+			n := 0
+			c.CreateTrigger("t", "v", func(r column.Reader) {
+				if r.IsDelete() {
+					n++
+				}
+			})
+			c.Query(func(txn *column.Txn) error { txn.DeleteAt(off); txn.DeleteAt(off); return nil })
+			if n != 1 {
+				return true, fmt.Sprintf("txn[delete@%d; delete@%d] commit: trigger received %d delete events for one row deletion", off, off, n)
+			}
+			return false, ""
+		})
+}
+
+func init() {
+	registerKF("f03-sortindex-equal-keys", "C16",
+		"the sort index ordered items by the string only: rows with equal values replaced each other and deleting one removed another",
+		func() (bool, string) {
+			c, _ := kfCollection(ColSpec{Name: "s", Kind: KString})
+			defer c.Close()
+			c.CreateSortIndex("sorted", "s")
+			for i := 0; i < 3; i++ {
+				c.Insert(func(r column.Row) error { r.SetString("s", "same"); return nil })
+			}
+			c.DeleteAt(1)
+			var seen []uint32
+			c.Query(func(txn *column.Txn) error {
+				return txn.Ascend("sorted", func(idx uint32) { seen = append(seen, idx) })
+			})
+			if len(seen) != 2 {
+				return true, fmt.Sprintf("3 rows hold \"same\", row 1 deleted: Ascend visits %v, want rows 0 and 2", seen)
+			}
+			return false, ""
+		})
+}
